@@ -115,6 +115,7 @@ class C07(Check):
         ch = [i for i, q in enumerate(spec['surfs']) if q['type'] == 'chebyshev' and
               any(c for row in (q['coef'] or []) for c in row)]
         self.cheb_at = (ch[0] + 1) if ch else None
+        self.nz = None
         try:
             return getattr(self, 'check_' + case['kind'])(case, out)
         except ValueError as e:
@@ -123,9 +124,45 @@ class C07(Check):
                 return
             raise
 
+    def note(self, out, spec, rec, mult=1.0):
+        """Known finding C07-parabola-cancellation (root cause of C05-/C02-parabola-cancellation): per ray, the loss of
+        the conic root 1e-15/|c (L^2+M^2+(1+k)N^2)| at every near-parabolic surface of this trace, as an allowance for
+        the relation that is judged next (positions: the displacement and its lever; directions: |c| times it)."""
+        from vf.ref import trace as RT
+        if not any(q['type'] == 'standard' and q['R'] != GL.INF and abs(1 + q['k']) < 0.05 for q in spec['surfs']):
+            return
+        if not out.kf_open('C07-parabola-cancellation'):
+            return
+        nr = rec['x'].shape[1]
+        terr = np.zeros(nr)
+        cmax = max([abs(1.0 / GL.fl(q['R'])) for q in spec['surfs'] if q['R'] != GL.INF] + [0.0])
+        for k, (shape, frame, is_mirror, q) in enumerate(RT.surface_models(spec)[:-1], start=1):
+            if shape.typ == 'standard' and shape.c != 0 and abs(1 + shape.k) < 0.05:
+                D = np.array([rec['L'][k - 1], rec['M'][k - 1], rec['N'][k - 1]])
+                Dl = frame.to_local_dir(D)
+                with np.errstate(all='ignore'):
+                    a_dir = np.abs(shape.c * (Dl[0] ** 2 + Dl[1] ** 2 + (1 + shape.k) * Dl[2] ** 2))
+                    terr = terr + np.where((a_dir > 0) & (a_dir < 1e-4 * abs(shape.c)) & np.isfinite(a_dir), 1e-15 / a_dir, 0.0)
+        if not np.any(terr > 0):
+            return
+        out.region('C07-parabola-cancellation')
+        L = max(1.0, sum(abs(q['t']) for q in spec['surfs']))
+        pos = 10 * terr * (1 + cmax * L) * mult
+        dr = 10 * terr * cmax
+        if self.nz is None or self.nz[0].shape != pos.shape:
+            self.nz = (pos, dr)
+        else:
+            self.nz = (np.maximum(self.nz[0], pos), np.maximum(self.nz[1], dr))
+
     def same(self, out, clause, a, b, keys=KEYS, tol=1e-10, rows=None, scale=None, **kw):
         ok = True
+        nz = self.nz
+        self.nz = None
         for k in keys:
+            if nz is not None and k != 'intensity' and a[k].shape[-1] == nz[0].shape[0]:
+                extra = nz[0] if k in ('x', 'y', 'z', 'opd') else nz[1]
+            else:
+                extra = 0.0
             x, y = a[k], b[k]
             if rows is not None:
                 x = x[rows[0]]
@@ -137,7 +174,15 @@ class C07(Check):
             # a ray that is non-finite in one description must be non-finite (inf or nan alike) in the other
             x = np.where(np.isfinite(x), x, np.nan)
             y = np.where(np.isfinite(y), y, np.nan)
-            ok &= out.close(clause, x, y, atol=tol * sc, rtol=tol, quantity=k, **kw)
+            if np.ndim(extra):
+                # per-ray allowance: compare against the tolerance ray by ray
+                with np.errstate(all='ignore'):
+                    bad = np.abs(x - y) > tol * sc + tol * np.abs(y) + extra
+                    bad |= np.isnan(x) != np.isnan(y)
+                ok &= out.expect(clause, not np.any(bad), quantity=k, weakened='C07-parabola-cancellation',
+                                 max_err=float(np.nanmax(np.where(bad, np.abs(x - y), 0.0))) if np.any(bad) else 0.0, **kw)
+            else:
+                ok &= out.close(clause, x, y, atol=tol * sc, rtol=tol, quantity=k, **kw)
         return ok
 
     @staticmethod
@@ -164,6 +209,8 @@ class C07(Check):
         want['L'] = a['L'] * sx
         want['y'] = a['y'] * sy
         want['M'] = a['M'] * sy
+        self.note(out, spec, a)
+        self.note(out, spec, b)
         self.same(out, 'mirror_symmetry', b, want, which=case['which'])
         out.nt(any(r[1] != 0 for r in rays) or any(h != 0 for h in hx))
 
@@ -205,6 +252,8 @@ class C07(Check):
         if not launch_same:
             out.cls('launch_changed_by_decentre')
             return
+        self.note(out, spec, a)
+        self.note(out, tw, b)
         self.same(out, 'tilt_about_centre_of_curvature', b, a, surface=i + 1, ax=ax, ay=ay)
         out.nt(max(abs(ax), abs(ay)) >= 0.02)
 
@@ -267,6 +316,7 @@ class C07(Check):
             a, b = self.from_first_surface(a), self.from_first_surface(b)
             rows_a = list(range(K + 1))
             rows_b = [r for r in range(K + 2) if r != i + 1]
+        self.note(out, spec, a)
         self.same(out, 'dummy_surface_changes_nothing', a, b, rows=(rows_a, rows_b), at=i + 1, frac=case['frac'])
         P, P2 = o.paraxial, o2.paraxial
         for nm in ('f2', 'F2', 'EPL', 'EPD'):
@@ -283,6 +333,8 @@ class C07(Check):
         o = build(spec)
         a = trace(o, case['rays'], spec['wls'][0])
         b = trace(o, case['rays'], round(case['w2'], 6))
+        self.note(out, spec, a)
+        self.note(out, spec, b)
         self.same(out, 'dispersion_free_lens_is_achromatic', b, a, keys=('x', 'y', 'z', 'L', 'M', 'N', 'opd'), tol=1e-13)
         out.nt(abs(case['w1'] - case['w2']) > 0.05 and any(q['mat']['kind'] == 'ideal' for q in spec['surfs']))
 
@@ -317,6 +369,8 @@ class C07(Check):
         w = spec['wls'][case['wl'] % len(spec['wls'])]
         a = trace(o, case['rays'], w)
         b = trace(o2, case['rays'], w)
+        self.note(out, spec, a, mult=s)
+        self.note(out, tw, b)
         self.rescale_relations(out, 'lengths_scale_with_the_prescription', a, b, s, factor=s)
         P, P2 = o.paraxial, o2.paraxial
         for nm in ('f2', 'F2', 'EPL', 'XPL'):
@@ -352,8 +406,25 @@ class C07(Check):
         n = a['x'].shape[0]
         rows = (list(range(1, n)), list(range(1, n)))
         sc = {k: self.Lsc * max(1.0, s) for k in ('x', 'y', 'z', 'opd')}
+        self.note(out, tw, a)
+        self.note(out, tw, b)
         self.same(out, 'scale_system_traces_like_the_scaled_lens', a, b, keys=('x', 'y', 'z', 'L', 'M', 'N', 'opd'),
                   rows=rows, scale=sc, tol=1e-9, s=s)
+        # intensities too (apertures are scaled with the lens): judged for rays that do not graze an aperture edge
+        tilted = any(q['rx'] or q['ry'] for q in spec['surfs'])
+        if not tilted:
+            graze = np.zeros(a['x'].shape[1], dtype=bool)
+            for i, q in enumerate(tw['surfs']):
+                if q.get('ap'):
+                    with np.errstate(all='ignore'):
+                        r = np.hypot(b['x'][i + 1] - q['dx'], b['y'][i + 1] - q['dy'])
+                        for edge in (q['ap']['r_max'], q['ap'].get('r_min', 0.0)):
+                            if edge:
+                                graze |= np.abs(r - edge) <= 1e-9 * max(edge, q['ap']['r_max'])
+                    graze |= ~np.isfinite(r)
+            ia = np.where(np.isfinite(a['intensity']), a['intensity'], np.nan)[1:, ~graze]
+            ib = np.where(np.isfinite(b['intensity']), b['intensity'], np.nan)[1:, ~graze]
+            out.close('scale_system_keeps_the_vignetting', ia, ib, atol=1e-12, rtol=1e-9, s=s)
         out.nt(s < 0.5 or s > 2.0)
 
 
